@@ -122,6 +122,9 @@ def exhaustive_perm_cases():
                 out.append("concat %s %s" % (fmt_list(a), fmt_list(b)))
         # all swap arrays
         for sw in itertools.product(*[range(i, n) for i in range(n)]):
+            out.append("perm 3 %s" % fmt_list(list(sw)))
+            out.append("perm 5 %s" % fmt_list(list(sw)))     # inv_swap: must be the inverse of `perm 3` of the same array
+            out.append("applyblk 5 %s 2 %s" % (fmt_list(list(sw)), fmt_list([10 * (i // 2) + i % 2 for i in range(2 * n)])))
             out.append("apply 3 %s %s" % (fmt_list(list(sw)), fmt_list([100 + i for i in range(n)])))
             out.append("apply 5 %s %s" % (fmt_list(list(sw)), fmt_list([100 + i for i in range(n)])))
     return out
@@ -955,9 +958,13 @@ def oracle(case, out):
                     for i in range(n):
                         p[i], p[v[i]] = p[v[i]], p[i]
                 else:
-                    p = list(range(n))
-                    for i in reversed(range(n)):
-                        p[i], p[v[i]] = p[v[i]], p[i]
+                    # inv_swap: the inverse of the permutation the same array denotes as a swap array
+                    f = list(range(n))
+                    for i in range(n):
+                        f[i], f[v[i]] = f[v[i]], f[i]
+                    p = [0] * n
+                    for i, k in enumerate(f):
+                        p[k] = i
             elif op == "concat":
                 p1, p2 = c.lst(), c.lst()
                 p = [p2[k] for k in p1]
